@@ -471,11 +471,15 @@ inline url_search_params& url_search_params::operator=(const url_search_params& 
 
 inline url_search_params& url_search_params::operator=(url_search_params&& other) UPA_NOEXCEPT_17 {
     assert(url_ptr_ == nullptr);
-    move_params(std::move(other));
+    if (this != std::addressof(other))
+        move_params(std::move(other));
     return *this;
 }
 
 inline url_search_params& url_search_params::safe_assign(url_search_params&& other) {
+    // moving the parameters into themselves leaves them (and the url) as they are
+    if (this == std::addressof(other))
+        return *this;
     move_params(std::move(other));
     update();
     return *this;
